@@ -11,7 +11,7 @@ CASE_TIMEOUT = 10
 NREGS = 3
 RULE = ('cases: histories of 1-12 public table operations over 3 registers (integer column names (d[0]=v, update({0: v}), dictable({0: ..}), records / d + {0: ..}: stored as "0"); assignment as d[k]=v, d.update({k: v}), d.k = v with extra misfits on one-row tables; constructors from records / keyword or dict columns '
         'with scalars / rows+headers / header-row form; d[k]=v, del d[k]; d[i], d[k], d[i][k] vs d[k][i], d[k1,k2], d[callable], list(d); '
-        'slices incl. negative bounds and steps (negative too), range indices (ascending, descending down to row 0, stepped, empty, out of range), bool masks, int lists, column lists; d(k=value|callable); d - key / d - [keys] (substring-related names id/bid, a/ab/name/surname); read / mutate / read-again triples for every (read spelling x in-place mutation spelling) pair on one table object; every read and table-returning call made twice; relabel / rename prefix, suffix, maps to fresh names, bijective maps among existing columns (swaps, cycles, identity entries, absent columns, chains ending in a fresh name); do; '
+        'slices incl. negative bounds and steps (negative too), range indices (ascending, descending down to row 0, stepped, empty, out of range), bool masks, int lists, column lists; d(k=value|callable); d & names; columns called `columns` / `data` in every op; empty numpy index arrays / masks (np.where without match) on tables with and without rows; d - key / d - [keys] (substring-related names id/bid, a/ab/name/surname); read / mutate / read-again triples for every (read spelling x in-place mutation spelling) pair on one table object; every read and table-returning call made twice; relabel / rename prefix, suffix, maps to fresh names, bijective maps among existing columns (swaps, cycles, identity entries, absent columns, chains ending in a fresh name); do; '
         'dictable.concat of 0-3 tables, d+None, d+0, 0+d, d+d, d+record; copy) on tables of 0-5 rows x 0-4 columns incl. empty tables and '
         'columns without rows, cells None/int/float/NaN objects/str/datetime; a separate malformed stream (misfit lengths, missing keys, '
         'out-of-range indices, ragged rows, wrong-length masks); plus every single op on every table with <= 2 rows x <= 2 columns over two '
@@ -26,7 +26,7 @@ TRUSTED = ['modelled, not verified: the dict-of-lists model coq/model/M_table.v 
            'dict key order is not modelled: observations are compared with columns sorted by name; generated ops never depend on key order '
            '(relabel maps are injective on every table: permutations of a name set or chains ending in a history-fresh name; two-argument do-functions only with explicit keys)',
            'Dict.copy is modelled as the identity on contents (it re-inserts every column through __setitem__)']
-ASSUMPTIONS = ['cells are None, ints, half-integer floats, +-inf, NaN objects, ASCII strings, datetimes (year 1 .. 9999, microseconds); no bool cells, no nested containers', 'column names are ASCII identifiers or ints (an int name is stored as its str; float / tuple names are kept as they are by the code and are not generated) (a column named "key" is modelled: it wins over the key=<new column> default of d(k=f)); not data / columns (constructor parameters)',
+ASSUMPTIONS = ['cells are None, ints, half-integer floats, +-inf, NaN objects, ASCII strings, datetimes (year 1 .. 9999, microseconds); no bool cells, no nested containers', 'column names are ASCII identifiers or ints (an int name is stored as its str; float / tuple names are kept as they are by the code and are not generated) (a column named "key" is modelled: it wins over the key=<new column> default of d(k=f)); incl. columns / data (the constructor\'s own parameter names: built from a dict, never through keyword spellings of the constructor; d.columns is the key list, not that column)',
                'row/column callables come from the named set coalesce, is_none, identity, eq (model: M_table.rowfn, colfn); a derived-column function with a parameter "key" and NO such column receives the new column name (modelled, no oracle claim)']
 EXHAUSTIVE = {'quick': False, 'thorough': False}
 LEVEL_TEXT = ('machine-checked Coq theorems C01_* for all histories and tables (invariant + refinement to a list-of-records spec by induction over the '
@@ -34,7 +34,8 @@ LEVEL_TEXT = ('machine-checked Coq theorems C01_* for all histories and tables (
 LEVEL_NOTE = 'the model is tied to the source by the differential run only (no translator: the code is dict/list manipulation, not arithmetic)'
 TECHNIQUE = 'Coq refinement proof (data refinement dict-of-lists -> list of records, fold_left induction) + differential correspondence in vm_compute + list-of-records oracle'
 
-NAMES = ['a', 'b', 'c', 'd', 'id', '_x', 'find_a', 'key', 'bid', 'name', 'surname', 'ab']     # substring-related names: id/bid, a/ab/name/surname      # 'key': Dict.__call__ injects key=<new column> as a default; a column of that name must win
+NAMES = ['a', 'b', 'c', 'd', 'id', '_x', 'find_a', 'key', 'bid', 'name', 'surname', 'ab',
+         'columns', 'data']     # names of the constructor's own parameters: such columns exist (built from a dict) and must survive every op     # substring-related names: id/bid, a/ab/name/surname      # 'key': Dict.__call__ injects key=<new column> as a default; a column of that name must win
 
 # ------------------------------------------------------------------ cells
 def cell_py(c, nans):
@@ -120,6 +121,7 @@ def op_coq(o):
         return 'OAdd %s %s %s' % (nat(o['dst']), nat(o['r']), s)
     if k == 'copy': return 'OCopy %s %s' % (nat(o['dst']), nat(o['r']))
     if k == 'sub': return 'OSub %s %s %s' % (nat(o['dst']), nat(o['r']), clist(qs(n) for n in o['ks']))
+    if k == 'and': return 'OAnd %s %s %s' % (nat(o['dst']), nat(o['r']), clist(qs(n) for n in o['names']))
     raise ValueError(k)
 
 def coq_runner(case): return 'run_c01'
@@ -297,6 +299,9 @@ def ref_step(o, get, conv):
         rec = dict((n, conv(x)) for n, x in a['rec'])
         return 'new', ref_concat([t, Ref(list(rec), [rec] if rec else [])])
     if k == 'copy': return 'new', t.copy()
+    if k == 'and':          # d & names: the named columns that exist, all rows (nothing named exists: the code returns all columns and no rows - no claim)
+        cs = [c for c in t.cols if c in o['names']]
+        return 'new', (Ref(cs, [{c: r[c] for c in cs} for r in t.rows]) if cs else None)
     if k == 'sub':          # d - key / d - [keys]: a new table without exactly these columns (absent ones ignored)
         cs = [c for c in t.cols if c not in o['ks']]
         return 'new', Ref(cs, [{c: r[c] for c in cs} for r in t.rows] if cs else [])
@@ -401,10 +406,10 @@ def impl(case):
                 if k == 'new_records': result = dictable(Krecs(o, [[(n, conv(x)) for n, x in r] for r in o['recs']]))
                 elif k == 'new_cols':
                     kv = dict((n, conv(v['S']) if 'S' in v else [conv(x) for x in v['L']]) for n, v in o['kvs'])
-                    if o.get('form') == 'mixed':          # dictable(data_dict, **kw): keyword columns first, then the data columns
+                    if o.get('form') == 'mixed' and not RESERVED & set(kv):          # dictable(data_dict, **kw): keyword columns first, then the data columns
                         ks_ = list(kv); sp_ = o.get('split', 0)
                         result = dictable({K(o, k_): kv[k_] for k_ in ks_[sp_:]}, **{k_: kv[k_] for k_ in ks_[:sp_]})
-                    else: result = dictable({K(o, k_): v_ for k_, v_ in kv.items()}) if o.get('form') == 'dict' else dictable(**kv)
+                    else: result = dictable({K(o, k_): v_ for k_, v_ in kv.items()}) if o.get('form') == 'dict' or RESERVED & set(kv) else dictable(**kv)
                 elif k == 'new_rows':
                     rows = [[conv(x) for x in r] for r in o['rows']]
                     result = dictable([list(o['names'])] + rows) if o['hdr'] else dictable(rows, list(o['names']))
@@ -419,7 +424,7 @@ def impl(case):
                 elif k == 'getrow': out = regs[o['r']][o['i']]
                 elif k == 'getcol':
                     d_ = regs[o['r']]      # d.key is the same column when it exists (a missing attribute is an AttributeError / find_ accessor: not used then)
-                    out = getattr(d_, o['key']) if o.get('form') == 'attr' and o['key'] in dict.keys(d_) and not o['key'].startswith('_') else d_[o['key']]
+                    out = getattr(d_, o['key']) if o.get('form') == 'attr' and o['key'] in dict.keys(d_) and not o['key'].startswith('_') and o['key'] != 'columns' else d_[o['key']]
                 elif k == 'cell':
                     out = []
                     for f in (lambda d: d[o['i']][o['key']], lambda d: d[o['key']][o['i']]):
@@ -430,8 +435,8 @@ def impl(case):
                 elif k == 'iter': out = list(regs[o['r']])
                 elif k == 'slice': result = regs[o['r']][slice(o['a'], o['b'], o.get('s'))]
                 elif k == 'range': result = regs[o['r']][range(o['a'], o['b'], o['s'])]
-                elif k == 'mask': result = regs[o['r']][np.array(o['m']) if o.get('form') == 'np' and o['m'] else list(o['m'])]
-                elif k == 'ints': result = regs[o['r']][np.array(o['idx']) if o.get('form') == 'np' and o['idx'] else list(o['idx'])]
+                elif k == 'mask': result = regs[o['r']][np.array(o['m'], dtype=bool) if o.get('form') == 'np' else list(o['m'])]
+                elif k == 'ints': result = regs[o['r']][(np.where(np.zeros(3, dtype=bool))[0] if not o['idx'] and o.get('npkind') == 'where' else np.array(o['idx'], dtype=int)) if o.get('form') == 'np' else list(o['idx'])]
                 elif k == 'proj': result = regs[o['r']][list(o['names'])]
                 elif k == 'call':
                     a = o['arg']
@@ -452,6 +457,7 @@ def impl(case):
                     a = o['a']
                     other = None if a == 'none' else 0 if a == 'zero' else 0.0 if a == 'zerof' else conv(a['num']) if 'num' in a else regs[a['reg']] if 'reg' in a else Krecs(o, [[(n, conv(x)) for n, x in rc] for rc in a['recs']]) if 'recs' in a else dict((K(o, n), conv(x)) for n, x in a['rec'])
                     result = (other + regs[o['r']]) if o.get('radd') and (a in ('zero', 'zerof') or (isinstance(a, dict) and 'num' in a)) else (regs[o['r']] + other)
+                elif k == 'and': result = regs[o['r']] & list(o['names'])
                 elif k == 'sub': result = regs[o['r']] - (o['ks'][0] if len(o['ks']) == 1 and o.get('form') != 'list' else list(o['ks']))
                 elif k == 'copy': result = dictable(regs[o['r']]) if o.get('form') == 'ctor' else regs[o['r']].copy()
                 else: raise RuntimeError('unknown op ' + k)
@@ -549,6 +555,7 @@ CELLS = [None, None, 0, 1, 2, -3, {'f': 2}, {'f': 5}, {'nan': 0}, {'nan': 1}, {'
          {'d': 86400000000}, {'d': 315537983999999999}, {'d': 64093000089123456}]        # 0001-01-01, 9999-12-31 23:59:59.999999, a sub-second time in 2031
 
 def rcell(rng): return rng.choice(CELLS)
+RESERVED = {'columns', 'data'}      # dictable(columns = .., data = ..) means something else: such columns are built from a dict; d.columns is the key list
 DIGITS = ['0', '7']          # integer column names: d[0] = v / update({0: v}) / dictable({0: ..}) / d + {0: ..} store the column under str(0)
 def rname(rng, t=None, p_exist=0.7, ident=False):
     """ident: the name becomes a lambda parameter, it must be an identifier"""
@@ -610,7 +617,7 @@ def gen_op(rng, shadow, malformed):
         r = rng.randrange(NREGS); t = shadow(r)
     n = len(t.rows) if t is not None else rng.randrange(4)
     kind = rng.choice(['new', 'new', 'set', 'set', 'set', 'del', 'getrow', 'getcol', 'cell', 'cell', 'tuple', 'apply', 'iter', 'slice', 'slice', 'range', 'range', 'mask', 'mask',
-                       'ints', 'ints', 'proj', 'call', 'call', 'relabel', 'do', 'concat', 'concat', 'add', 'add', 'copy', 'sub', 'sub'])
+                       'ints', 'ints', 'proj', 'call', 'call', 'relabel', 'do', 'concat', 'concat', 'add', 'add', 'copy', 'sub', 'sub', 'and', 'and'])
     if kind == 'new': return gen_new(rng, dst, malformed)
     if kind == 'set':
         q = rng.random()
@@ -620,6 +627,7 @@ def gen_op(rng, shadow, malformed):
         else: v = {'L': [rcell(rng) for _ in range(n)]}
         if n == 1 and rng.random() < 0.4: v = {'L': [rcell(rng) for _ in range(rng.choice([2, 3, 3, 0]))]}     # a longer column on a ONE-row table
         return {'op': 'set', 'r': r, 'key': rname(rng, t, 0.4), 'v': v, 'form': rng.choice(['item', 'item', 'update', 'update', 'attr'])}
+    if kind == 'and': return {'op': 'and', 'dst': dst, 'r': r, 'names': [rname(rng, t, 0.8) for _ in range(rng.choice([1, 2, 2, 3]))]}
     if kind == 'sub':
         ks = [rname(rng, t, 0.85) for _ in range(rng.choice([1, 1, 1, 2, 3, 0]))]
         return {'op': 'sub', 'dst': dst, 'r': r, 'ks': ks, 'form': rng.choice(['single', 'list'])}
@@ -736,7 +744,9 @@ def add_forms(rng, o):
         o['form'] = rng.choice(['kw', 'dict', 'mixed'])
         if o['form'] == 'mixed': o['split'] = rng.randrange(0, len(o['kvs']) + 1)
     elif k in ('del', 'getcol') and q < 0.3: o['form'] = 'attr'
-    elif k in ('mask', 'ints') and q < 0.3: o['form'] = 'np'
+    elif k in ('mask', 'ints') and (q < 0.3 or (q < 0.6 and not (o.get('m') or o.get('idx')))):       # numpy selectors, also EMPTY ones (np.where with no match, empty masks)
+        o['form'] = 'np'
+        if k == 'ints' and rng.random() < 0.5: o['npkind'] = 'where'
     elif k in ('concat', 'do') and q < 0.3: o['form'] = 'list'
     elif k == 'copy' and q < 0.4: o['form'] = 'ctor'
     elif k == 'relabel' and q < 0.4: o['argform'] = 'fn' if o['sp'][0] in ('prefix', 'suffix') else 'dict'
@@ -877,6 +887,12 @@ def single_ops(names, nrows):
         yield {'op': 'add', 'dst': dst, 'r': r, 'a': a, 'radd': False}
     yield {'op': 'add', 'dst': dst, 'r': r, 'a': 'zero', 'radd': True}
     yield {'op': 'copy', 'dst': dst, 'r': r}
+    for m in ([], [False] * nrows):
+        yield {'op': 'mask', 'dst': dst, 'r': r, 'm': m, 'form': 'np'}
+    yield {'op': 'ints', 'dst': dst, 'r': r, 'idx': [], 'form': 'np'}
+    yield {'op': 'ints', 'dst': dst, 'r': r, 'idx': [], 'form': 'np', 'npkind': 'where'}
+    for ns in (['a'], ['b', 'a'], ['c'], ['c', 'a'], []):
+        yield {'op': 'and', 'dst': dst, 'r': r, 'names': ns}
     for ks in (['a'], ['b'], ['c'], ['ab'], ['ba'], ['a', 'b'], ['b', 'c'], []):
         yield {'op': 'sub', 'dst': dst, 'r': r, 'ks': ks, 'form': 'single'}
         yield {'op': 'sub', 'dst': dst, 'r': r, 'ks': ks, 'form': 'list'}
@@ -891,7 +907,8 @@ def read_ops(rng, cols, n, r=0, dst=1):
             {'op': 'cell', 'r': r, 'i': 0, 'key': c1}, {'op': 'iter', 'r': r}, {'op': 'tuple', 'r': r, 'names': [c0, c1]},
             {'op': 'slice', 'dst': dst, 'r': r, 'a': None, 'b': None, 's': rng.choice([None, -1])}, {'op': 'mask', 'dst': dst, 'r': r, 'm': [True] * n},
             {'op': 'proj', 'dst': dst, 'r': r, 'names': list(cols)}, {'op': 'copy', 'dst': dst, 'r': r}, {'op': 'concat', 'dst': dst, 'srcs': [r, r]},
-            {'op': 'sub', 'dst': dst, 'r': r, 'ks': [], 'form': 'list'}] + \
+            {'op': 'sub', 'dst': dst, 'r': r, 'ks': [], 'form': 'list'}, {'op': 'and', 'dst': dst, 'r': r, 'names': list(cols)},
+            {'op': 'ints', 'dst': dst, 'r': r, 'idx': [], 'form': 'np'}, {'op': 'mask', 'dst': dst, 'r': r, 'm': [False] * n, 'form': 'np'}] + \
            ([{'op': 'apply', 'r': r, 'f': ['ident', c1]}] if c1.isidentifier() else [])
 def mutate_ops(rng, cols, n, r=0):
     c0 = cols[0] if cols else 'a'; c1 = cols[-1] if cols else 'b'
@@ -915,6 +932,37 @@ def rmr_cases(rng, kvs_list, frac):
                 if rng.random() < 0.3: ops += [dict(rng.choice(mutate_ops(rng, cols, n))), dict(rd)]
                 out.append({'ops': ops, 'kind': 'rmr'})
     return out
+
+def gen_reserved(rng):
+    """columns named like the constructor's parameters through every op that rebuilds a table"""
+    names = rng.sample(['columns', 'data', 'a', 'b'], rng.choice([2, 3, 4]))
+    if not RESERVED & set(names): names[0] = rng.choice(['columns', 'data'])
+    n = rng.choice([0, 0, 1, 2, 3])
+    ops = [{'op': 'new_cols', 'dst': 0, 'kvs': [[nm, {'L': [rcell(rng) for _ in range(n)]}] for nm in names], 'form': 'dict'}]
+    for _ in range(rng.choice([3, 4, 5])):
+        key = rng.choice(names); dst = rng.choice([1, 2]); r = rng.choice([0, 0, 1])
+        k = rng.choice(['proj', 'proj', 'and', 'and', 'relabel', 'relabel', 'sub', 'del', 'set', 'concat', 'do', 'call', 'mask', 'ints', 'slice', 'copy', 'add', 'getcol', 'apply'])
+        if k == 'proj': o = {'op': 'proj', 'dst': dst, 'r': r, 'names': rng.sample(names, rng.randrange(1, len(names) + 1))}
+        elif k == 'and': o = {'op': 'and', 'dst': dst, 'r': r, 'names': rng.sample(names + ['zz'], rng.randrange(1, len(names) + 1))}
+        elif k == 'relabel':
+            sp = rng.choice([['prefix', 'x_'], ['suffix', '_y'], ['map', [[key, 'n%d' % next(FRESH)]]], ['map', [['a', 'columns'], ['columns', 'a']]], ['map', [['data', 'columns'], ['columns', 'data']]], ['map', [['b', 'data'], ['data', 'n%d' % next(FRESH)]]]])
+            o = {'op': 'relabel', 'dst': dst, 'r': r, 'sp': sp, 'form': rng.choice(['relabel', 'rename'])}
+            if rng.random() < 0.6: o['argform'] = 'dict' if sp[0] == 'map' else 'fn'
+        elif k == 'sub': o = {'op': 'sub', 'dst': dst, 'r': r, 'ks': [key], 'form': rng.choice(['single', 'list'])}
+        elif k == 'del': o = {'op': 'del', 'r': dst, 'key': key, 'form': rng.choice(['item', 'attr'])}
+        elif k == 'set': o = {'op': 'set', 'r': rng.choice([0, dst]), 'key': rng.choice(['columns', 'data']), 'v': {'S': rcell(rng)}, 'form': rng.choice(['item', 'update', 'attr'])}
+        elif k == 'concat': o = {'op': 'concat', 'dst': dst, 'srcs': [0, r], 'form': rng.choice(['args', 'list'])}
+        elif k == 'do': o = {'op': 'do', 'dst': dst, 'r': r, 'fs': [['isnone']], 'ks': [key], 'fform': 'single'}
+        elif k == 'call': o = {'op': 'call', 'dst': dst, 'r': r, 'key': rng.choice(['columns', 'data', 'z']), 'arg': {'f': ['ident', key]}}
+        elif k == 'mask': o = {'op': 'mask', 'dst': dst, 'r': r, 'm': [rng.random() < 0.5 for _ in range(n)], 'form': rng.choice(['list', 'np'])}
+        elif k == 'ints': o = {'op': 'ints', 'dst': dst, 'r': r, 'idx': [rng.randrange(n) for _ in range(rng.choice([0, 1, 2]))] if n else [], 'form': rng.choice(['list', 'np'])}
+        elif k == 'slice': o = {'op': 'slice', 'dst': dst, 'r': r, 'a': None, 'b': None, 's': rng.choice([None, -1])}
+        elif k == 'copy': o = {'op': 'copy', 'dst': dst, 'r': r, 'form': rng.choice(['copy', 'ctor'])}
+        elif k == 'add': o = {'op': 'add', 'dst': dst, 'r': r, 'a': rng.choice([{'rec': [[key, rcell(rng)]]}, {'num': 5}, {'reg': 0}]), 'radd': False}
+        elif k == 'getcol': o = {'op': 'getcol', 'r': r, 'key': key, 'form': rng.choice(['item', 'attr'])}
+        else: o = {'op': 'apply', 'r': r, 'f': ['ident', key]}
+        ops.append(o)
+    return {'ops': ops, 'kind': 'reserved'}
 
 def gen_sub(rng):
     """d - key / d - [keys] / del on tables whose column names contain one another (id/bid, a/ab/name/surname)"""
@@ -953,6 +1001,7 @@ def gen_cases(rng, tier):
         cases.append(c)
     cases += [gen_keycol(rng) for _ in range(60 if tier == 'quick' else 1500)]
     cases += [gen_sub(rng) for _ in range(60 if tier == 'quick' else 1500)]
+    cases += [gen_reserved(rng) for _ in range(100 if tier == 'quick' else 2500)]
     # read / mutate / read again: random 1-4 row tables (all pairs) + every table of the small scope (sampled in the quick tier)
     rt = []
     for _ in range(2 if tier == 'quick' else 40):
@@ -981,7 +1030,7 @@ def nontrivial(case, result):
 
 def shape(case):
     k = case.get('kind', 'corpus')
-    return k if k in ('small', 'big', 'keycol', 'rmr', 'sub') else '%s:len%d' % (k, len(case['ops']))
+    return k if k in ('small', 'big', 'keycol', 'rmr', 'sub', 'reserved') else '%s:len%d' % (k, len(case['ops']))
 
 def shrink(case):
     ops = case['ops']
